@@ -199,7 +199,7 @@ Proof.
       cbn [flat_map]. change (with_lf []) with (@nil text).
       destruct (c_blank c) as [|b bs] eqn:EB.
       * rewrite app_nil_r. rewrite run_cue_eof; auto.
-      * rewrite run_cue; auto; [|congruence].
+      * rewrite run_cue by (auto; congruence).
         cbn [run at_eof m_mode m_done]. reflexivity.
     + change (wf_cues (c :: c' :: cs')) with (wf_cue false c && wf_cues (c' :: cs')) in W.
       apply andb_true_iff in W as [W1 W2]. destruct (wf_cue_fields _ _ W1) as [Wc NB].
@@ -227,7 +227,7 @@ Proof.
   intro H. pose proof (clock_digits_print k H) as [_ A _ B _ C _ D].
   rewrite print_clock_text. unfold clock_text.
   destruct (digits_no_eol _ A), (digits_no_eol _ B), (digits_no_eol _ C), (digits_no_eol _ D).
-  split; repeat (apply no_lf_app || apply no_cr_app); auto; reflexivity.
+  split; repeat (first [assumption | reflexivity | apply no_lf_app | apply no_cr_app]).
 Qed.
 
 Lemma cue_lines_no_eol c : cue_wf c -> cue_ok c -> Forall no_lf (cue_lines c) /\ Forall no_cr (cue_lines c).
@@ -244,10 +244,10 @@ Proof.
   destruct BL as [BL1 BL2].
   split.
   - constructor; [auto|]. constructor.
-    + unfold timing_line. repeat apply no_lf_app; auto; reflexivity.
+    + unfold timing_line. repeat (first [assumption | reflexivity | apply no_lf_app]).
     + apply Forall_app. split; auto. rewrite payload_lines_split. apply split_lf_no_lf.
   - constructor; [auto|]. constructor.
-    + unfold timing_line. repeat apply no_cr_app; auto; reflexivity.
+    + unfold timing_line. repeat (first [assumption | reflexivity | apply no_cr_app]).
     + apply Forall_app. split; auto. rewrite payload_lines_split. apply split_lf_no_cr. auto.
 Qed.
 
@@ -269,7 +269,7 @@ Proof.
   pose proof (wf_cues_each _ WC) as E.
   assert (Q : Forall no_lf (flat_map cue_lines (f_cues f)) /\ Forall no_cr (flat_map cue_lines (f_cues f))).
   { clear WC WL L. induction (f_cues f) as [|c cs IH]; [split; constructor|].
-    inversion E; subst. inversion G; subst. destruct (IH H2 H4) as [I1 I2].
+    inversion E; subst. inversion G; subst. destruct (IH H4 H2) as [I1 I2].
     destruct (cue_lines_no_eol c H1 H3) as [J1 J2]. cbn [flat_map]. split; apply Forall_app; auto. }
   destruct L, Q. split; apply Forall_app; auto.
 Qed.
